@@ -5,7 +5,12 @@
      class  <fx> <line>                         -> ok <kind>
      blocks <fx> <top> <text>                   -> ok <lbb&lbb&...> | err <kind>
      table  <fx> <top> <flavor> <types,> <text> -> ok <action|action...> | err <kind>
-   action = cmd:arg,arg:key=0,key=1 ; lbb = elements joined by ';', L<cond> or B<action|action> *)
+   action = cmd:arg,arg:key=0,key=1 ; lbb = elements joined by ';', L<cond> or B<action|action>
+   <fx> : 0 = the pinned code, 1 = with the three small repairs, 2 = 1 and the block reader with the repair of
+   D6 (only blocks and table tell 1 from 2) *)
+let fx_of (f : Stdlib.String.t) : bool = (f <> "0")
+let eb_of (f : Stdlib.String.t) : bool = (f = "2")
+
 let show_value (v : value) : Stdlib.String.t =
   match v with
   | VStr s -> "S:" ^ enc_str s
@@ -40,17 +45,17 @@ let handle (f : Stdlib.String.t array) : Stdlib.String.t =
   match f.(0) with
   | "toks" -> "ok\t" ^ enc_strlist ',' (tokenize (dec_str f.(1)))
   | "cond" ->
-    (match eval_value (bool_of_field f.(1)) (cenv_of f.(2) f.(3)) (dec_str f.(4)) with
+    (match eval_value (fx_of f.(1)) (cenv_of f.(2) f.(3)) (dec_str f.(4)) with
      | Ok v -> "ok\t" ^ show_value v
      | Err k -> "err\t" ^ err_name k)
-  | "args" -> "ok\t" ^ enc_strlist ',' (split_args (bool_of_field f.(1)) (dec_str f.(2)))
-  | "class" -> "ok\t" ^ show_kind (classify (bool_of_field f.(1)) (dec_str f.(2)))
+  | "args" -> "ok\t" ^ enc_strlist ',' (split_args (fx_of f.(1)) (dec_str f.(2)))
+  | "class" -> "ok\t" ^ show_kind (classify (fx_of f.(1)) (dec_str f.(2)))
   | "blocks" ->
-    (match read_text (bool_of_field f.(1)) (dec_str f.(2)) (dec_str f.(3)) with
+    (match read_text (fx_of f.(1)) (eb_of f.(1)) (dec_str f.(2)) (dec_str f.(3)) with
      | Ok ls -> "ok\t" ^ String.concat "&" (List.map (fun l -> String.concat ";" (List.map show_elem l)) ls)
      | Err k -> "err\t" ^ err_name k)
   | "table" ->
-    (match table_actions (bool_of_field f.(1)) (dec_str f.(2)) (dec_str f.(5)) (cenv_of f.(3) f.(4)) with
+    (match table_actions (fx_of f.(1)) (eb_of f.(1)) (dec_str f.(2)) (dec_str f.(5)) (cenv_of f.(3) f.(4)) with
      | Ok l -> "ok\t" ^ show_actions l
      | Err k -> "err\t" ^ err_name k)
   | _ -> failwith "unknown op"
